@@ -25,6 +25,22 @@ theorem sites_anchored :
     Pox.HandoffSites.anchored.Nodup ∧ (∀ s : Site, s ∈ Pox.HandoffSites.allSites) :=
   ⟨by decide, by decide, by intro s; cases s <;> decide⟩
 
+/-- run a list of thread ids from the initial state; every entry must be enabled -/
+def runStrict (s : State) : List Tid → Option State
+  | [] => some s
+  | t :: ts => (step s t).bind fun s' => runStrict s' ts
+
+theorem runStrict_reachable {threaded users progs} (l : List Tid) : ∀ (s s' : State),
+    Reachable threaded users progs s → runStrict s l = some s' → Reachable threaded users progs s' := by
+  induction l with
+  | nil => intro s s' hr h; cases h; exact hr
+  | cons t ts ih =>
+    intro s s' hr h
+    simp only [runStrict] at h
+    cases hs : step s t with
+    | none => simp [hs] at h
+    | some s1 => simp [hs] at h; exact ih s1 s' (.step t hr hs) h
+
 /-! ## call-later -/
 
 /-- **calllater_once.**  In every reachable state: the calls handed over so far (`submitted`, in hand-over order) are
@@ -87,13 +103,14 @@ theorem sync_mutual {threaded users progs} {s : State} (hr : Reachable threaded 
 
 /-! ## schedule() from foreign threads -/
 
-/-- **schedule_atmost1.**  A task that is woken through `Scheduler.schedule()` — by any number of foreign threads (via
+/-- **schedule_atmost1_partial.**  (Partial: tasks parked in the select hub are outside the model, and for those the
+code violates the clause with the threaded hub — `schedule_hub_race_defect`, finding C07-1.)  A task that is woken through `Scheduler.schedule()` — by any number of foreign threads (via
 ScheduleTasks) and by other cooperative tasks from inside their slices (the direct branch), at any moments — never
 occurs twice in the ready queue; and while the scheduler thread is executing it, or is about to put it (back) into the
 queue, it is not in the queue at all.  Hypothesis `usersOk`: no task's program schedules the task itself (the
 documented exception of `schedule()`, see `schedule_self_twice`).  (`u < users.length`: the tasks that exist before
 the run and are only ever woken through `schedule()`; tasks parked in the select hub are outside this statement.) -/
-theorem schedule_atmost1 {threaded users progs} {s : State} (hok : usersOk users)
+theorem schedule_atmost1_partial {threaded users progs} {s : State} (hok : usersOk users)
     (hr : Reachable threaded users progs s) (u : TaskId) (hu : u < users.length) :
     s.ready.count u ≤ 1 ∧ (holds s.s s.tasks u → u ∉ s.ready) := by
   have hn := reach_nUsers hr
@@ -102,8 +119,8 @@ theorem schedule_atmost1 {threaded users progs} {s : State} (hok : usersOk users
 /-- the hypothesis is needed, exactly as the docstring of `schedule()` says: a task that schedules *itself* and then
 yields 0 is in the ready queue twice (`if task in self._ready` cannot see the running task). -/
 theorem schedule_self_twice :
-    (run (Handoff.init false [[.sched 0, .yield0]] [[.schedule 0]])
-      [2, 2, 2, 2, 2, 0, 0, 0, 0, 0, 0, 0, 0, 0, 0, 0, 0, 0, 0]).ready = [0, 0] := by decide
+    (runStrict (Handoff.init false [[.sched 0, .yield0]] [[.schedule 0]])
+      [2, 2, 2, 2, 2, 0, 0, 0, 0, 0, 0, 0, 0, 0, 0, 0, 0, 0, 0]).map (·.ready) = some [0, 0] := by decide
 
 /-- **Defect of the code outside this model's reachable states (reproduced on the real classes, see
 `harness/c07.py`, case kind "hubrace").**  `schedule()` promises that it "will not schedule a task to run multiple times",
@@ -118,7 +135,8 @@ def hubRaceState : State :=
   { threaded := true, nUsers := 1, tasks := [.user [], .st 0 false], ready := [1], s := .runLen,
     h := .hub (.ret 0 .assert), fs := [] }
 
-theorem schedule_hub_race_defect : (run hubRaceState [0, 0, 0, 1, 0, 1, 0]).ready = [0, 0] := by decide
+theorem schedule_hub_race_defect :
+    (runStrict hubRaceState [0, 0, 0, 1, 0, 1, 0]).map (·.ready) = some [0, 0] := by decide
 
 /-- **no wake is lost.**  Whenever a ScheduleTask's slice ends (the scheduler thread returns to its loop from
 `ScheduleTask.run`), the task it was created for is in the ready queue — either it was there already, or it has just
@@ -262,25 +280,11 @@ open Pox.CoopLock in
 free it under its owner, and two tasks then believe they hold it (same contract as `threading.Lock`; not a defect of
 the code, but the exact hypothesis under which `lock_excl` holds) -/
 theorem lock_excl_needs_discipline :
-    (srun {} [.acq 1 true, .relAny 2 0, .acq 3 true]).believers = [1, 3] := by decide
+    ([Pox.CoopLock.Op.acq 1 true, .relAny 2 0, .acq 3 true].foldl
+      (fun (s : Option Pox.CoopLock.Sys) o => s.bind fun s => sstep s o) (some {})).map (·.believers) = some [1, 3] := by
+  decide
 
 /-! ## non-vacuity: concrete reachable states in which the hypotheses hold -/
-
-/-- run a list of thread ids from the initial state; every entry must be enabled -/
-def runStrict (s : State) : List Tid → Option State
-  | [] => some s
-  | t :: ts => (step s t).bind fun s' => runStrict s' ts
-
-theorem runStrict_reachable {threaded users progs} (l : List Tid) : ∀ (s s' : State),
-    Reachable threaded users progs s → runStrict s l = some s' → Reachable threaded users progs s' := by
-  induction l with
-  | nil => intro s s' hr h; cases h; exact hr
-  | cons t ts ih =>
-    intro s s' hr h
-    simp only [runStrict] at h
-    cases hs : step s t with
-    | none => simp [hs] at h
-    | some s1 => simp [hs] at h; exact ih s1 s' (.step t hr hs) h
 
 /-- inline hub, one foreign thread doing `with synchronized(): callLater(f)`: a reachable state with the thread inside
 the section, one call pending -/
